@@ -22,7 +22,7 @@ impl KNumber {
     pub fn abs(self) -> Self {
         match self {
             Self::F64(n) => Self::F64(n.abs()),
-            Self::I64(n) => Self::I64(n.abs()),
+            Self::I64(n) => Self::I64(n.wrapping_abs()),
         }
     }
 
